@@ -47,8 +47,14 @@ def run(tier, seed):
         exact = rng.random() < 0.3
         wide = s1 in coarse and s2 in fine
         k1 = (rng.choice(STORES), rng.choice(STORES)); k2 = (rng.choice(["sparse", "pag", "sparse", "dense"]), rng.choice(["sparse", "pag"]))
+        # one exact-statistics case in three carries a compensated sum whose correction term is not zero (2^53 next to small values) and is
+        # converted with a power-of-two factor: the term must be rescaled too, which shows once the large value is cancelled afterwards
+        comp = exact and not wide and rng.random() < 0.35
+        if comp: scale = 2.0 ** rng.choice([-9, -3, 4, -20]); k1 = (rng.choice(["sparse", "pag"]), rng.choice(["sparse", "pag"]))
         b = Builder("m%d" % i); b.knew("s", s1, k1[0], k1[1], exact)
-        for v in rand_values(rng, rng.choice([1, 2, 3]) if wide else rng.choice([1, 3, 10, 40, 120]), -1, 2, zeros=0.1): b.kadd("s", v, rng.choice([None, None, None, 2.0, 0.5]))
+        if comp:
+            for v in [2.0 ** 53, 1.0, 3.0] + rand_values(rng, rng.choice([0, 3]), 0, 1, zeros=0): b.kadd("s", v)
+        for v in ([] if comp else rand_values(rng, rng.choice([1, 2, 3]) if wide else rng.choice([1, 3, 10, 40, 120]), -1, 2, zeros=0.1)): b.kadd("s", v, rng.choice([None, None, None, 2.0, 0.5]))
         j0 = b.emit("kobs s")
         # lockstep with the float-level model (Sketch/ChangeMappingG.v over the bit-exact mappings): every AddWithCount call the conversion makes
         jt = b.emit("kchtrace s %s %s" % (s2, f2h(scale)))
@@ -58,6 +64,14 @@ def run(tier, seed):
         qs = [0.0, 1.0] + [rng.random() for _ in range(9)]
         jq = [b.emit("q r %s" % f2h(q)) for q in qs]
         js = [b.emit("kstats s"), b.emit("kstats r")] if exact else None
+        if comp:
+            vs = [(Fraction(v) * Fraction(scale), w) for v, w in b.vals["s"]] + [(Fraction(-(2.0 ** 53) * scale), Fraction(1))]
+            def sum_ok(a, env, vs=vs):
+                fld = dict(x.split("=") for x in a.split()); got = Fraction(h2f(fld["sum"][1:])) if fld["sum"] != "xnan" else None
+                true = sum(v * w for v, w in vs); mag = sum(abs(v) * w for v, w in vs)
+                if got is None or abs(got - true) > Fraction(16, 2 ** 53) * mag: return "after the conversion and one more addition the exact sum is %s, the true sum is %s" % (fld["sum"], float(true))
+                return None
+            b.emit("kadd r %s" % f2h(-(2.0 ** 53) * scale), "ok"); b.emit("kstats r", sum_ok)
         # the result and the source are independent sketches afterwards (whatever the scale): mutate one, the other is unchanged
         jr0 = b.emit("kobs r"); jst0 = b.emit("kstats r") if exact else None
         b.emit("kadd s %s" % f2h(7.5), "ok"); b.emit("kadd s %s %s" % (f2h(-3.25), f2h(2.0)), "ok")
